@@ -16,6 +16,7 @@ R4 the loader complements the writer: the backup is tried exactly when the main 
 from __future__ import annotations
 
 import ast
+import os
 
 from ..engine import Analysis, describe_path
 from ..frontend import AnalysisError, unparse
@@ -67,6 +68,18 @@ def analyse_save_rows(res: RuleResult, summ) -> None:
             m = mode.value if isinstance(mode, Const) else "r"
             if any(ch in str(m) for ch in "wax+"):
                 wr_opens.append(e)
+        # is the written file empty when the dump starts?  'w' / 'x' modes truncate or create; a descriptor
+        # opened with os.open does only if O_TRUNC or O_EXCL is among its flags
+        not_empty = []
+        for e in wr_opens:
+            mode = e["argv"][1] if len(e["argv"]) > 1 else None
+            m = str(mode.value) if isinstance(mode, Const) else "?"
+            if e.get("via") == "os.fdopen":
+                fl = e.get("flags")
+                if fl is None or not (fl & (os.O_TRUNC | os.O_EXCL)):
+                    not_empty.append(f"os.open flags {fl} without O_TRUNC / O_EXCL")
+            elif not ("w" in m or "x" in m):
+                not_empty.append(f"mode {m!r}")
         dumps = [e for e in fe if e["name"] in ("pickle.dump", "json.dump")]
         flushes = [e for e in fe if e["name"] == "file.flush"]
         fsyncs = [e for e in fe if e["name"] == "os.fsync"]
@@ -78,6 +91,15 @@ def analyse_save_rows(res: RuleResult, summ) -> None:
             failing += 1
             ok = not clears
             res.add("C12-R3", f"save_sensors[{ext}] / a failing file operation leaves the state marked unsaved", ok, "mysensors/persistence.py", f"{r['exc']} propagates, need_save untouched" if ok else "the dirty flag is cleared although a file operation failed", r["witness"] if not ok else None)
+            # ... and leaves a loadable previous copy: the backup may be removed only after the new main file
+            # really is in place (a removal in a finally / handler after the failed move-in deletes the only copy)
+            rm_bak_f = [e for e in removes if e["args"] and e["args"][0] == bak_key]
+            if rm_bak_f:
+                failed_at = r["exc_site"]
+                done = [e for e in renames if len(e["args"]) > 1 and e["args"][0] != bak_key and e["args"][1] != bak_key and e["i"] < rm_bak_f[0]["i"] and f"{e['func']}:{e['line']}" != failed_at]
+                aside_f = [e for e in renames if len(e["args"]) > 1 and e["args"][1] == bak_key]
+                ok_keep = bool(done) or not aside_f
+                res.add("C12-R3", f"save_sensors[{ext}] / a failed save never removes the backup before the new main file is in place", ok_keep, "mysensors/persistence.py", "on failing paths the backup is only removed after a completed move-in" if ok_keep else f"on the path where {failed_at} fails, the old file has been moved aside to the backup and the backup is then removed: no loadable copy is left", r["witness"] if not ok_keep else None)
             continue
         if not wr_opens and not renames:
             # early return paths (permission denied / nothing to save): must not clear the flag
@@ -89,6 +111,7 @@ def analyse_save_rows(res: RuleResult, summ) -> None:
         tmp = wr_opens[0]["args"][0] if wr_opens else None
         ok1 = len(wr_opens) == 1 and tmp is not None
         res.add("C12-R1", f"save_sensors[{ext}] / exactly one file is opened for writing", ok1, "mysensors/persistence.py", f"{len(wr_opens)} write opens", r["witness"] if not ok1 else None)
+        res.add("C12-R1", f"save_sensors[{ext}] / the temp file is written from empty (truncating or exclusive open)", not not_empty, "mysensors/persistence.py", "open mode truncates" if not not_empty else f"the written file is opened without truncation ({'; '.join(not_empty)}): a longer leftover temp file keeps its tail behind the new content", r["witness"] if not_empty else None)
         moves_in = [e for e in renames if e["args"] and e["args"][0] == tmp]
         ok_move = len(moves_in) == 1
         res.add("C12-R3", f"save_sensors[{ext}] / the temp file is moved onto the main file exactly once", ok_move, "mysensors/persistence.py", f"{len(moves_in)} moves of the temp file", r["witness"] if not ok_move else None)
@@ -137,14 +160,15 @@ def open_modes(analysis: Analysis, res: RuleResult) -> None:
     mod = analysis.p.modules["persistence"]
     n = 0
     for node in ast.walk(mod.tree):
-        if isinstance(node, ast.Call) and isinstance(node.func, ast.Name) and node.func.id == "open":
+        if isinstance(node, ast.Call) and (isinstance(node.func, ast.Name) and node.func.id == "open" or unparse(node.func) == "os.fdopen"):
             n += 1
             fn = common.func_of_node(analysis, mod, node)
-            mode = node.args[1].value if len(node.args) > 1 and isinstance(node.args[1], ast.Constant) else next((k.value.value for k in node.keywords if k.arg == "mode" and isinstance(k.value, ast.Constant)), "r")
-            writing = any(ch in str(mode) for ch in "wax+")
-            ok = (writing and fn.split(".")[-1].startswith("_save_")) or (not writing)
+            mode = node.args[1].value if len(node.args) > 1 and isinstance(node.args[1], ast.Constant) else next((k.value.value for k in node.keywords if k.arg == "mode" and isinstance(k.value, ast.Constant)), "r" if len(node.args) < 2 else "?")
+            writing = any(ch in str(mode) for ch in "wax+?")
+            savers = {q for q in analysis.p.funcs if q.split(".")[-1].startswith("_save_")}
+            ok = (writing and common.owned_by(analysis, fn, savers)) or (not writing)
             res.add("C12-R1", f"{fn} / open mode {mode!r}", ok, common.where(analysis, mod, node), "write modes only in the _save_* helpers, which receive the temp name" if ok else "a file is opened for writing outside the _save_* helpers")
-    if n < 4:
+    if n < 2:
         raise AnalysisError(f"C12-R1: only {n} open() calls found in persistence.py")
     # _save_* helpers are only reached through save_sensors -> _perform_file_action(tmp, "save")
     info = analysis.p.func("persistence:Persistence.save_sensors")
